@@ -15,7 +15,7 @@ impl std::ops::Div for &Primitive {
 
     fn div(self, rhs: Self) -> Self::Output {
         match rhs {
-            Int(0) | BigInt(0) => bail!("/ by 0"),
+            Int(0) | BigInt(0) | Byte(0) => bail!("/ by 0"),
             Float(f) if f == &0.0 => {
                 log::error!("{self} / 0");
 
